@@ -1,7 +1,11 @@
-//! Correspondence harness of property C07 (stub).
+//! Correspondence harness of property C07 (hash gadgets equal their reference functions).
 use mzkh::Ctx;
 
+mod circuits;
+mod poseidon;
+
 fn main() {
-    let ctx = Ctx::from_args("C07");
+    let mut ctx = Ctx::from_args("C07");
+    poseidon::run(&mut ctx);
     ctx.finish();
 }
